@@ -878,6 +878,16 @@ impl<'a> Visitor for OpVisitor<'a> {
                     out.viol("C13", "size", id, &rel, format!("size() = {} reference {} ({})", obs.size, exp["size"], tag));
                 }
             }
+            // the implementation's own refusals: where it answers Err although the reference accepts the call, whether
+            // refusing is right is C11 / C12's question, but the state must still be the one before the call
+            if has("C13") && !follow && ok0 && matches!(node, "vec" | "str" | "flex") && matches!(op0, "push" | "push_slice" | "push_str" | "push_default")
+                && obs.results.first().map(|r| r["ok"] == json!(false)).unwrap_or(false)
+            {
+                out.count("judged.C13.impl-refusal");
+                if let Some(d) = tree_diff(&case["pretree"], &obs.read, true, "") {
+                    out.viol("C13", "state", id, &format!("{}:refused-but-changed", rel), format!("the call returned Err but the value changed: {} ({})", d, tag));
+                }
+            }
             if has("C18") && j18 {
                 for (chk, r2, d) in &generic {
                     if matches!(*chk, "validate" | "remap" | "accessors") || (*chk == "state" && !anyvalid) {
